@@ -8,8 +8,9 @@
 From Coq Require Import Reals List.
 From OV.base Require Import Num.
 From OV.gen Require Import Gen_Surface Gen_EdgeCpp Gen_Levelset Gen_MortarContact.
-From OV.model Require Import M_C16_Mortar M_C16_Mesh.
-From OV.proofs Require Import L_C18 L_C16 L_C16m L_C16h.
+From Coq Require Import ZArith Floats.
+From OV.model Require Import M_C16_Mortar M_C16_Mesh M_C16_Patched.
+From OV.proofs Require Import L_C18 L_C16 L_C16m L_C16h L_C16p L_C16f.
 Import ListNotations.
 Local Open Scope R_scope.
 
@@ -116,6 +117,151 @@ Theorem C16_parallel_segments : forall c s tx ty LA u v h l (quad : list (R * R)
   Rabs (m (fun _ _ _ => 1) - (Rmin LA u - Rmax 0 v)) <= l * (LA + (u - v)) / 2 /\
   m (fun _ _ g => g) = h * m (fun _ _ _ => 1).
 Proof. exact parallel_segments_any_position. Qed.
+
+(* ---- parallel segments: the remaining rule / orientation combinations of the UNPATCHED source (round 4) ---- *)
+(* anti-parallel segments with the AVERAGE-normal rule (the rule the tests and the example of /repo use): nA - nB = 2 nA *)
+Theorem C16_parallel_segments_average : forall c s tx ty LA u v h l (quad : list (R * R)),
+  c * c + s * s = 1 -> 0 < LA -> v < u -> 0 < l <= 1 / 2 -> Rmax 0 v <= Rmin LA u ->
+  fold_right (fun q acc => snd q + acc) 0 quad = 1 ->
+  let m f := @mortar R NumR (@average_normal R NumR)
+               (rx c s tx 0 0) (ry c s ty 0 0) (rx c s tx LA 0) (ry c s ty LA 0)
+               (rx c s tx u (- h)) (ry c s ty u (- h)) (rx c s tx v (- h)) (ry c s ty v (- h)) f l quad in
+  Rabs (m (fun _ _ _ => 1) - (Rmin LA u - Rmax 0 v)) <= l * (LA + (u - v)) / 2 /\
+  m (fun _ _ g => g) = h * m (fun _ _ _ => 1).
+Proof. exact parallel_segments_average. Qed.
+(* parallel segments of the SAME orientation (B from v to u, v < u) with the one-sided rule *)
+Theorem C16_parallel_same_orientation_from_a : forall c s tx ty LA u v h l (quad : list (R * R)),
+  c * c + s * s = 1 -> 0 < LA -> v < u -> 0 < l <= 1 / 2 -> Rmax 0 v <= Rmin LA u ->
+  fold_right (fun q acc => snd q + acc) 0 quad = 1 ->
+  let m f := @mortar R NumR (@normal_from_a R NumR)
+               (rx c s tx 0 0) (ry c s ty 0 0) (rx c s tx LA 0) (ry c s ty LA 0)
+               (rx c s tx v (- h)) (ry c s ty v (- h)) (rx c s tx u (- h)) (ry c s ty u (- h)) f l quad in
+  Rabs (m (fun _ _ _ => 1) - (Rmin LA u - Rmax 0 v)) <= l * (LA + (u - v)) / 2 /\
+  m (fun _ _ g => g) = h * m (fun _ _ _ => 1).
+Proof. exact parallel_same_orientation_from_a. Qed.
+
+(* ---- binary64: the sign clause of cpp_distance for points EXACTLY on the line of the segment (round 4) ----
+   The regenerated kernel at T := float (PrimFloat, IEEE binary64), executed inside the kernel on the whole grid and lifted from
+   forallb.  line_dist e a0 a1 d0 d1 k = cpp_distance of the segment a = (a0,a1) 2^e, b = a + (d0,d1) 2^e at p = a + (k/4)(b - a).
+   Bounds of the grid: e in {-3, 0, 2}, |a_i| <= 3, |d_i| <= 3, d <> 0, -8 <= k <= 12  (147 168 points).
+   On the segment the result is a zero (0 |-> +: `0 <= r`, also for the IEEE value -0), beyond either end it is strictly positive. *)
+Theorem C16_binary64_on_line_counts_as_positive : forall e a0 a1 d0 d1 k : Z,
+  In e [-3; 0; 2]%Z -> (-3 <= a0 <= 3)%Z -> (-3 <= a1 <= 3)%Z -> (-3 <= d0 <= 3)%Z -> (-3 <= d1 <= 3)%Z -> (d0, d1) <> (0, 0)%Z ->
+  (-8 <= k <= 12)%Z ->
+  let r := @cpp_distance float NumF (F a0 e) (F a1 e) (F (a0 + d0) e) (F (a1 + d1) e) (F (4 * a0 + k * d0) (e - 2)) (F (4 * a1 + k * d1) (e - 2)) in
+  PrimFloat.leb 0 r = true /\ ((0 <= k <= 4)%Z -> PrimFloat.eqb r 0 = true) /\ ((k < 0 \/ 4 < k)%Z -> PrimFloat.ltb 0 r = true).
+Proof. exact cpp_distance_on_line_binary64. Qed.
+
+(* ==================================================================================================================
+   PROPOSED PATCHES for the open findings C16-F1 / C16-F2  --  NOT the code in /repo (unchanged; the findings stay open).
+   Subjects: model/M_C16_Patched.v, the models of the patched functions whose Python text is tools/vlib/c16_patches.py
+   (PATCH_F1 / PATCH_F2; executed against these models by the stream `patched` of ./check C16).
+   ================================================================================================================== *)
+(* F1: compute_average_normal with a fall-back to nA when |nA - nB| <= eps.   nn_of nA nB = |nA - nB|. *)
+Theorem C16_patchF1_is_the_average_rule_when_well_conditioned : forall eps a00 a01 a10 a11 b00 b01 b10 b11,
+  eps < nn_of (@Gen_MortarContact.compute_normal R NumR a00 a01 a10 a11) (@Gen_MortarContact.compute_normal R NumR b00 b01 b10 b11) ->
+  @average_normal_p R NumR eps a00 a01 a10 a11 b00 b01 b10 b11 = @average_normal R NumR a00 a01 a10 a11 b00 b01 b10 b11.
+Proof. exact avgp_is_avg. Qed.
+Theorem C16_patchF1_unit_normal : forall eps a00 a01 a10 a11 b00 b01 b10 b11,
+  0 <= eps -> (a00, a01) <> (a10, a11) -> (b00, b01) <> (b10, b11) ->
+  let n := @average_normal_p R NumR eps a00 a01 a10 a11 b00 b01 b10 b11 in fst n * fst n + snd n * snd n = 1.
+Proof. exact avgp_unit. Qed.
+(* every numeric type, binary64 included: the division is only performed by a norm that compares > eps (a NaN norm does not) *)
+Theorem C16_patchF1_no_division_by_a_small_norm : forall (T : Type) (NT : Num T) (eps a00 a01 a10 a11 b00 b01 b10 b11 : T),
+  let nA := @Gen_MortarContact.compute_normal T NT a00 a01 a10 a11 in
+  let nB := @Gen_MortarContact.compute_normal T NT b00 b01 b10 b11 in
+  let d0 := nsub (fst nA) (fst nB) in let d1 := nsub (snd nA) (snd nB) in
+  let nn := nsqrt (nadd (nmul d0 d0) (nmul d1 d1)) in
+  (nltb eps nn = false -> @average_normal_p T NT eps a00 a01 a10 a11 b00 b01 b10 b11 = nA) /\
+  (nltb eps nn = true -> @average_normal_p T NT eps a00 a01 a10 a11 b00 b01 b10 b11 = (ndiv d0 nn, ndiv d1 nn)).
+Proof. exact avgp_no_small_division. Qed.
+Theorem C16_patchF1_mortar_rigid_invariance : forall c s tx ty, c * c + s * s = 1 -> forall eps a00 a01 a10 a11 b00 b01 b10 b11 f l quad,
+  @mortar R NumR (@average_normal_p R NumR eps) (rx c s tx a00 a01) (ry c s ty a00 a01) (rx c s tx a10 a11) (ry c s ty a10 a11)
+     (rx c s tx b00 b01) (ry c s ty b00 b01) (rx c s tx b10 b11) (ry c s ty b10 b11) f l quad
+  = @mortar R NumR (@average_normal_p R NumR eps) a00 a01 a10 a11 b00 b01 b10 b11 f l quad.
+Proof. exact mortar_rigid_average_p. Qed.
+(* the configuration of the finding (parallel, SAME orientation: the unpatched rule is 0/0) now gives the overlap length *)
+Theorem C16_patchF1_same_orientation : forall eps c s tx ty LA u v h l (quad : list (R * R)), 0 <= eps ->
+  c * c + s * s = 1 -> 0 < LA -> v < u -> 0 < l <= 1 / 2 -> Rmax 0 v <= Rmin LA u ->
+  fold_right (fun q acc => snd q + acc) 0 quad = 1 ->
+  let m f := @mortar R NumR (@average_normal_p R NumR eps)
+               (rx c s tx 0 0) (ry c s ty 0 0) (rx c s tx LA 0) (ry c s ty LA 0)
+               (rx c s tx v (- h)) (ry c s ty v (- h)) (rx c s tx u (- h)) (ry c s ty u (- h)) f l quad in
+  Rabs (m (fun _ _ _ => 1) - (Rmin LA u - Rmax 0 v)) <= l * (LA + (u - v)) / 2 /\
+  m (fun _ _ g => g) = h * m (fun _ _ _ => 1).
+Proof. exact parallel_same_orientation_average_p. Qed.
+(* ... and facing (anti-parallel) segments are unaffected, for every threshold below |nA - nB| = 2 *)
+Theorem C16_patchF1_facing_segments : forall eps c s tx ty LA u v h l (quad : list (R * R)), eps < 2 ->
+  c * c + s * s = 1 -> 0 < LA -> v < u -> 0 < l <= 1 / 2 -> Rmax 0 v <= Rmin LA u ->
+  fold_right (fun q acc => snd q + acc) 0 quad = 1 ->
+  let m f := @mortar R NumR (@average_normal_p R NumR eps)
+               (rx c s tx 0 0) (ry c s ty 0 0) (rx c s tx LA 0) (ry c s ty LA 0)
+               (rx c s tx u (- h)) (ry c s ty u (- h)) (rx c s tx v (- h)) (ry c s ty v (- h)) f l quad in
+  Rabs (m (fun _ _ _ => 1) - (Rmin LA u - Rmax 0 v)) <= l * (LA + (u - v)) / 2 /\
+  m (fun _ _ g => g) = h * m (fun _ _ _ => 1).
+Proof. exact parallel_segments_average_p. Qed.
+(* binary64, by execution inside the kernel: on the witness of the finding the model of the unpatched source returns NaN
+   (encoded [0; 7777]), the models of the patch (eps = 0 and eps = 1e-8) return the overlap length 0.6 within 8e-4 and gap = 0.1 * area *)
+Theorem C16_F1_witness_binary64 :
+  fenc (f1_mortar (@average_normal float NumF) oneF) = [0; 7777]%Z /\
+  near (f1_mortar (@average_normal_p float NumF 0) oneF) (F 5404319552844595 (-53)) (F 7378697629483821 (-63)) = true /\
+  near (f1_mortar (@average_normal_p float NumF (F 3022314549036573 (-78))) oneF) (F 5404319552844595 (-53)) (F 7378697629483821 (-63)) = true /\
+  near (f1_mortar (@average_normal_p float NumF (F 3022314549036573 (-78))) gapF)
+       (F 3602879701896397 (-55) * f1_mortar (@average_normal_p float NumF (F 3022314549036573 (-78))) oneF)%float (F 1 (-50)) = true.
+Proof. exact F1_witness_binary64. Qed.
+
+(* F2: compute_intersection with the toleranced mask -tol <= xi <= 1+tol and clipping to [0,1].
+   vPt tol c = the toleranced mask accepts c;  from_list tol l m = m is the clipped image of an accepted candidate of l;
+   close d c c' = both parameters of c' are within d of those of c. *)
+Theorem C16_patchF2_tolerance_zero_is_the_source : forall a00 a01 a10 a11 b00 b01 b10 b11 n0 n1 f l quad,
+  @mortar_with_normal_p R NumR 0 a00 a01 a10 a11 b00 b01 b10 b11 n0 n1 f l quad
+  = @mortar_with_normal R NumR a00 a01 a10 a11 b00 b01 b10 b11 n0 n1 f l quad.
+Proof. exact mortar_p_tol0. Qed.
+Theorem C16_patchF2_selection : forall tol (l : list (R * R * R)), some_valid_t tol l ->
+  from_list tol l (@sel_min_p R NumR tol l) /\ from_list tol l (@sel_max_p R NumR tol l) /\
+  (forall x, In x l -> vPt tol x -> cxa (@sel_min_p R NumR tol l) <= cxa (@clipc R NumR x) <= cxa (@sel_max_p R NumR tol l)).
+Proof. exact selection_p_spec. Qed.
+Theorem C16_patchF2_parameters_in_unit_interval : forall tol (l : list (R * R * R)), some_valid_t tol l ->
+  vP (@sel_min_p R NumR tol l) /\ vP (@sel_max_p R NumR tol l) /\ cxa (@sel_min_p R NumR tol l) <= cxa (@sel_max_p R NumR tol l).
+Proof. exact selection_p_in_unit_interval. Qed.
+Theorem C16_patchF2_rigid_invariance : forall c s tx ty tol, c * c + s * s = 1 -> forall a00 a01 a10 a11 b00 b01 b10 b11 n0 n1 f l quad,
+  @mortar_with_normal_p R NumR tol (rx c s tx a00 a01) (ry c s ty a00 a01) (rx c s tx a10 a11) (ry c s ty a10 a11)
+        (rx c s tx b00 b01) (ry c s ty b00 b01) (rx c s tx b10 b11) (ry c s ty b10 b11) (rot0 c s n0 n1) (rot1 c s n0 n1) f l quad
+  = @mortar_with_normal_p R NumR tol a00 a01 a10 a11 b00 b01 b10 b11 n0 n1 f l quad.
+Proof. exact mortar_p_rigid. Qed.
+Theorem C16_patchF2_nonneg : forall tol l, 0 < l <= 1 / 2 -> forall a00 a01 a10 a11 b00 b01 b10 b11 n0 n1 f (quad : list (R * R)),
+  (forall q, In q quad -> 0 <= snd q) -> (forall xa xb g, 0 <= f xa xb g) ->
+  0 <= @mortar_with_normal_p R NumR tol a00 a01 a10 a11 b00 b01 b10 b11 n0 n1 f l quad.
+Proof. exact mortar_p_nonneg. Qed.
+Theorem C16_patchF2_no_overlap_zero : forall tol a00 a01 a10 a11 b00 b01 b10 b11 n0 n1 f l quad,
+  ~ some_valid_t tol (@candidates R NumR a00 a01 a10 a11 b00 b01 b10 b11 n0 n1) ->
+  @mortar_with_normal_p R NumR tol a00 a01 a10 a11 b00 b01 b10 b11 n0 n1 f l quad = 0.
+Proof. exact mortar_p_no_overlap. Qed.
+(* what the patch is for: if every parameter of the candidate list is perturbed by at most d <= tol (rounding of the 2x2 solves),
+   the patched selection keeps both ends of the exact overlap up to d *)
+Theorem C16_patchF2_keeps_the_overlap : forall tol d (l l' : list (R * R * R)),
+  Forall2 (close d) l l' -> 0 <= d <= tol -> some_valid l ->
+  cxa (@sel_min_p R NumR tol l') <= cxa (@sel_min R NumR l) + d /\ cxa (@sel_max R NumR l) - d <= cxa (@sel_max_p R NumR tol l').
+Proof. exact patched_selection_keeps_overlap. Qed.
+(* ... whereas the un-toleranced mask of the source loses the WHOLE overlap of a conforming pair under an arbitrarily small
+   outward perturbation of the parameters (the mechanism of finding C16-F2, over R), and the patched selection does not *)
+Theorem C16_F2_untoleranced_mask_refuted : forall d, 0 < d ->
+  Forall2 (close d) conforming_exact (conforming_perturbed d) /\
+  cxa (@sel_min R NumR conforming_exact) = 0 /\ cxa (@sel_max R NumR conforming_exact) = 1 /\
+  ~ some_valid (conforming_perturbed d) /\
+  (forall lenA lenB f s quad,
+     @active R NumR (@sel_min R NumR (conforming_perturbed d)) (@sel_max R NumR (conforming_perturbed d)) lenA lenB f s quad = 0) /\
+  (forall tol, d <= tol -> cxa (@sel_min_p R NumR tol (conforming_perturbed d)) = 0 /\ cxa (@sel_max_p R NumR tol (conforming_perturbed d)) = 1).
+Proof. exact untoleranced_mask_loses_the_overlap. Qed.
+(* binary64, by execution inside the kernel: f2_W = a rotated conforming pair on which the binary64 hand model of the unpatched
+   source returns 0 instead of the overlap length 2 (all four candidates miss [0,1] by one rounding); f2_K = the failing input of
+   the implementation recorded in known_findings.d/C16.json; the model of the patch (tol = 1e-12) returns 2 within 2^-26 on both *)
+Theorem C16_F2_witness_binary64 :
+  fenc (f2_W (@mortar float NumF (@normal_from_a float NumF))) = [0; 0]%Z /\
+  near (f2_W (@mortar_p float NumF tol12 (@normal_from_a float NumF))) 2 (F 1 (-26)) = true /\
+  near (f2_K (@mortar_p float NumF tol12 (@normal_from_a float NumF))) 2 (F 1 (-26)) = true /\
+  fenc (f2_W (@mortar_p float NumF 0 (@normal_from_a float NumF))) = [0; 0]%Z.
+Proof. exact F2_witness_binary64. Qed.
 
 (* ---- penalty energy and level sets ---- *)
 Theorem C16_penalty_edge : forall k jac (wphi : list (R * R)), 0 < k -> 0 < jac -> (forall q, In q wphi -> 0 < fst q) ->
